@@ -61,7 +61,15 @@ type Invocation struct {
 	RunID   int
 }
 
+// fifoMeet: rendezvous of one writer command and one reader command on a FIFO.
+type fifoMeet struct {
+	writer, reader *Invocation
+	wg, rg         *G
+	done           bool
+}
+
 type World struct {
+	fifos map[string]*fifoMeet
 	Cwd     string
 	Nodes   map[string]*Node
 	nextIno int
@@ -632,6 +640,12 @@ func (m *Machine) runVcmd(dir, text string, args []string) Value {
 			if n.C != nil {
 				id = n.C
 			}
+			if n.Kind == KFifo {
+				// opening a FIFO for reading blocks until a writer opens it; the reader
+				// receives the writer's bytes
+				meet := m.fifoRendezvous(ab, inv, false)
+				id = &Content{Origin: "cmd", Inv: meet.writer.N, Target: p, Status: int64(2)}
+			}
 			inv.ReadIDs = append(inv.ReadIDs, id)
 			w.event(m, "cmd-read", int64(inv.N), ab)
 		case strings.HasPrefix(a, "w:"), strings.HasPrefix(a, "x:"):
@@ -665,7 +679,9 @@ func (m *Machine) runVcmd(dir, text string, args []string) Value {
 				return fail("cannot create " + p + ": is a directory")
 			}
 			if n := w.node(ab); n != nil && n.Kind == KFifo {
+				// opening a FIFO for writing blocks until a reader opens it
 				w.event(m, "cmd-write-fifo", int64(inv.N), ab)
+				m.fifoRendezvous(ab, inv, true)
 				continue
 			}
 			cont := &Content{Origin: "cmd", Inv: inv.N, Target: p, Status: st}
@@ -714,6 +730,42 @@ func (m *Machine) exitError(code Value) Iface {
 	p := new(Value)
 	*p = Struct{ps, Slice(nil)}
 	return Iface{T: m.extType("exiterror"), V: p}
+}
+
+func (m *Machine) fifoRendezvous(path string, inv *Invocation, isWriter bool) *fifoMeet {
+	w := m.Env
+	if w.fifos == nil {
+		w.fifos = map[string]*fifoMeet{}
+	}
+	meet := w.fifos[path]
+	if meet == nil || meet.done {
+		meet = &fifoMeet{}
+		w.fifos[path] = meet
+	}
+	if isWriter {
+		if meet.writer != nil {
+			m.unsupported("two writers on FIFO %s", path)
+		}
+		meet.writer, meet.wg = inv, m.cur
+	} else {
+		if meet.reader != nil {
+			m.unsupported("two readers on FIFO %s", path)
+		}
+		meet.reader, meet.rg = inv, m.cur
+	}
+	for meet.writer == nil || meet.reader == nil {
+		m.park("fifo " + path)
+	}
+	if !meet.done {
+		meet.done = true
+		// wake the partner
+		if isWriter {
+			m.makeRunnable(meet.rg)
+		} else {
+			m.makeRunnable(meet.wg)
+		}
+	}
+	return meet
 }
 
 // deepCopy copies a value graph (used for JSON snapshots).
